@@ -85,3 +85,113 @@ Proof.
       now apply (find_sub_prefix "ip access-group" " " l s).
     + cbn [fst snd]. rewrite !String.eqb_refl. cbn [andb]. now left.
 Qed.
+
+(** * a configuration assembled from sections is read back as exactly these sections
+    A section = a header line (not indented) followed by at least one indented line.  For
+    pairwise distinct headers the section dictionary is the list of sections, in order. *)
+Definition section_lines (s : string * list string) : list cline :=
+  (false, fst s) :: map (fun b => (true, b)) (snd s).
+Definition lines_of (secs : list (string * list string)) : list cline := flat_map section_lines secs.
+
+Lemma dic_get_absent k (P : dic) : ~ In k (map fst P) -> dic_get k P = None.
+Proof.
+  induction P as [|[k' v] t IH]; cbn; [reflexivity|]. intros H.
+  destruct (String.eqb k k') eqn:E; [apply String.eqb_eq in E; subst; tauto|]. apply IH. tauto.
+Qed.
+
+Lemma dic_get_last k v (P : dic) : ~ In k (map fst P) -> dic_get k (P ++ [(k, v)]) = Some v.
+Proof.
+  induction P as [|[k' v'] t IH]; cbn; intros H; [now rewrite String.eqb_refl|].
+  destruct (String.eqb k k') eqn:E; [apply String.eqb_eq in E; subst; tauto|]. apply IH. tauto.
+Qed.
+
+Lemma dic_set_absent k v (P : dic) : ~ In k (map fst P) -> dic_set k v P = P ++ [(k, v)].
+Proof.
+  induction P as [|[k' v'] t IH]; cbn; [reflexivity|]. intros H.
+  destruct (String.eqb k k') eqn:E; [apply String.eqb_eq in E; subst; tauto|]. rewrite IH; tauto.
+Qed.
+
+Lemma dic_set_last k v v0 (P : dic) : ~ In k (map fst P) -> dic_set k v (P ++ [(k, v0)]) = P ++ [(k, v)].
+Proof.
+  induction P as [|[k' v'] t IH]; cbn; intros H; [now rewrite String.eqb_refl|].
+  destruct (String.eqb k k') eqn:E; [apply String.eqb_eq in E; subst; tauto|]. rewrite IH; tauto.
+Qed.
+
+(** the body lines of the current section, one by one *)
+Lemma body_fold k : forall body (P : dic) done,
+  ~ In k (map fst P) -> done <> [] ->
+  fold_left dic_step (map (fun b => (true, b)) body) (P ++ [(k, done)], k) = (P ++ [(k, done ++ body)], k).
+Proof.
+  induction body as [|b body IH]; intros P done HP HD; cbn [map fold_left].
+  - now rewrite app_nil_r.
+  - unfold dic_step at 2. cbn [fst snd]. rewrite (dic_get_last k done P HP).
+    destruct done as [|x xs]; [congruence|]. rewrite (dic_set_last _ _ _ _ HP).
+    etransitivity; [apply (IH P ((x :: xs) ++ [b]) HP); destruct xs; discriminate|]. now rewrite <- app_assoc.
+Qed.
+
+Lemma sections_fold : forall secs (P : dic) key,
+  NoDup (map fst P ++ map fst secs) ->
+  Forall (fun s => snd s <> []) secs ->
+  (* the previous key is settled: present with a non-empty body, or not an interface key *)
+  (is_interface_key key = false \/ exists v, dic_get key P = Some v /\ v <> []) ->
+  exists key', fold_left dic_step (lines_of secs) (P, key) = (P ++ secs, key').
+Proof.
+  induction secs as [|[k body] rest IH]; intros P key ND NE HK.
+  - exists key. cbn. now rewrite app_nil_r.
+  - unfold lines_of. cbn [flat_map]. rewrite fold_left_app.
+    change (section_lines (k, body)) with ((false, k) :: map (fun b => (true, b)) body). cbn [fold_left].
+    inversion NE as [|? ? Hb NE']; subst. cbn [snd] in Hb.
+    assert (HkP : ~ In k (map fst P)).
+    { intro C. apply NoDup_remove_2 in ND. apply ND. apply in_or_app. now left. }
+    (* the header line *)
+    assert (E1 : dic_step (P, key) (false, k) = (P, k)).
+    { unfold dic_step. cbn [fst snd]. destruct HK as [HK|(v & Gv & Nv)].
+      - now rewrite HK.
+      - destruct (is_interface_key key); [|reflexivity]. rewrite Gv. destruct v; [congruence|reflexivity]. }
+    rewrite E1.
+    (* the first body line creates the entry, the others append *)
+    destruct body as [|b0 body]; [congruence|]. cbn [map fold_left].
+    assert (E2 : dic_step (P, k) (true, b0) = (P ++ [(k, [b0])], k)).
+    { unfold dic_step. cbn [fst snd]. rewrite (dic_get_absent k P HkP). now rewrite (dic_set_absent _ _ _ HkP). }
+    rewrite E2, (body_fold k body P [b0] HkP); [|discriminate]. cbn [app].
+    destruct (IH (P ++ [(k, b0 :: body)]) k) as (key' & EF).
+    + rewrite map_app. cbn [map fst]. rewrite <- app_assoc. cbn [app].
+      cbn [map fst] in ND. exact ND.
+    + exact NE'.
+    + right. exists (b0 :: body). split; [now apply dic_get_last|discriminate].
+    + exists key'. unfold lines_of in EF. etransitivity; [exact EF|]. now rewrite <- app_assoc.
+Qed.
+
+Theorem parse_dic_sections secs :
+  NoDup (map fst secs) -> Forall (fun s => snd s <> []) secs ->
+  parse_dic (lines_of secs) = secs.
+Proof.
+  intros ND NE. unfold parse_dic.
+  destruct (sections_fold secs [] "" ND NE) as (key' & E).
+  - left. reflexivity.
+  - change ([] ++ secs) with secs in E. now apply (f_equal fst) in E.
+Qed.
+
+(** * unrelated sections do not change the result *)
+(** a section that is neither an access list nor an address group and mentions no access-group *)
+Definition noise (e : string * list string) : Prop :=
+  acl_key (fst e) = None /\ addgr_key (fst e) = None /\ existsb (contains_sub "ip access-group") (snd e) = false.
+
+Lemma bindings_noise d1 e d2 : noise e -> bindings (d1 ++ e :: d2) = bindings (d1 ++ d2).
+Proof.
+  intros (_ & _ & N). induction d1 as [|[k body] t IH]; cbn [app bindings].
+  - destruct e as [k body]. cbn [snd] in N. now rewrite N.
+  - destruct (existsb (contains_sub "ip access-group") body); [|exact IH].
+    destruct (negb (starts_with "interface " k)); [reflexivity|].
+    destruct (negb (forallb _ _)); [reflexivity|]. now rewrite IH.
+Qed.
+
+Theorem noise_irrelevant pl names d1 e d2 : noise e ->
+  acl_sections pl names (d1 ++ e :: d2) = acl_sections pl names (d1 ++ d2)
+  /\ addgr_sections (d1 ++ e :: d2) = addgr_sections (d1 ++ d2).
+Proof.
+  intros N. pose proof N as (A & G & _). split.
+  - unfold acl_sections. rewrite (bindings_noise d1 e d2 N).
+    rewrite !flat_map_app. cbn [flat_map]. rewrite A. reflexivity.
+  - unfold addgr_sections. rewrite !flat_map_app. cbn [flat_map]. rewrite G. reflexivity.
+Qed.
